@@ -2,6 +2,11 @@
 //! produced by a proptest strategy, so proptest owns seeding, shrinking (shorter vectors and
 //! smaller numbers mean structurally simpler cases) and replay. No RNG of our own.
 
+/// Generator health: number of decoders created and of decoders that ran past the end of their
+/// sequence (from there on every decision is the simplest one; a high share means truncated cases).
+pub static CH_CREATED: std::sync::atomic::AtomicU64 = std::sync::atomic::AtomicU64::new(0);
+pub static CH_EXHAUSTED: std::sync::atomic::AtomicU64 = std::sync::atomic::AtomicU64::new(0);
+
 pub struct Ch<'a> {
     data: &'a [u32],
     pos: usize,
@@ -9,6 +14,7 @@ pub struct Ch<'a> {
 
 impl<'a> Ch<'a> {
     pub fn new(data: &'a [u32]) -> Self {
+        CH_CREATED.fetch_add(1, std::sync::atomic::Ordering::Relaxed);
         Ch { data, pos: 0 }
     }
     pub fn used(&self) -> usize {
@@ -16,6 +22,9 @@ impl<'a> Ch<'a> {
     }
     pub fn raw(&mut self) -> u32 {
         let v = self.data.get(self.pos).copied().unwrap_or(0);
+        if self.pos == self.data.len() {
+            CH_EXHAUSTED.fetch_add(1, std::sync::atomic::Ordering::Relaxed);
+        }
         self.pos += 1;
         v
     }
